@@ -266,24 +266,22 @@ Definition ctx_copy (st : state) (ns : dict) : state :=
   ctx_init s1 (RChain [RDict a; root_r st]) (Some (root_r st)).
 
 (** context.py copy(), [block_scope=True] branch (a {% block %} rendered through
-    {% extends %}), AFTER proposed_fixes/C10/0001:
+    {% extends %}), the code AS IT IS (/repo 3880a38):
       ctx.globals  = ReadOnlyChainMap(namespace, self.scope)
       ctx.counters = self.counters                      (shared with the page)
-      enclosing    = list(self.scope._maps)[:-4]        (what the page has pushed)
-      ctx.scope    = ReadOnlyChainMap(namespace, *enclosing, ctx.locals,
-                                      ctx.globals, builtin, ctx.counters)
+      ctx.scope    = ReadOnlyChainMap(ctx.locals, ctx.globals, builtin, ctx.counters)
     The page's scope does not change while one of its blocks is rendered, so
     the nested reference to it is the immutable tree [RChain (scope st)].
-    (Before the fix ctx.scope was (ctx.locals, ctx.globals, builtin,
-    ctx.counters): a variable assigned in the block came BEFORE the for / with
-    bindings around the block tag.) *)
+    The block's own locals come FIRST: a variable assigned in the block
+    shadows the for / tablerow / with bindings around the block tag and the
+    block drop (known finding block-assign-shadows-enclosing-binding-through-
+    extends; the repair proposed_fixes/C10/declined/0001 was declined). *)
 Definition ctx_copy_block (st : state) (ns : dict) : state :=
   let '(s1, a) := alloc (store_of st) ns in
   let '(s2, l) := alloc s1 [] in
   let g := RChain [RDict a; RChain (scope st)] in
-  let enclosing := firstn (length (scope st) - 4) (scope st) in
   {| store_of := s2;
-     scope := RDict a :: enclosing ++ [RDict l; g; RBuiltin; RDict (counters_a st)];
+     scope := [RDict l; g; RBuiltin; RDict (counters_a st)];
      locals_a := l; counters_a := counters_a st; globals_r := g; root_r := root_r st |}.
 
 (** * Operations a render performs on the chain *)
